@@ -294,6 +294,79 @@ def _execute_python_family(darr, np_, tmp, numtype, bo, shape, lang, mode):
     return code, problems
 
 
+def h_run_readonly(n: int, probe: int, numtype='int32', bo='little', atom=(), version='same', withmeta=False,
+                   _gate=None, _small=False):
+    """what the generated 'Python with Darr' program DOES - darr.Array(path) with the default access mode, then
+    a[:] - changes no file of the array (arrays without elements included), whichever Darr version wrote its
+    description"""
+    assume(0 <= n <= 2 ** 30)
+    small(_small, n)
+    w = new_world()
+    put_array(D, w, '/w/dat/arr', n, numtype, bo, tuple(atom), metadata={'who': 'me'} if withmeta else None)
+    if version != 'same':
+        node = w.lookup('/w/dat/arr/arraydescription.json')
+        obj = dict(node.text.obj)
+        obj['darrversion'] = version
+        node.text = JsonDoc(obj)
+    before = snap(w.lookup('/w/dat/arr'))
+    try:
+        a = D.array.Array(path='/w/dat/arr')
+        v = a[:]
+        a.readcode('darr')
+        a.readcodelanguages
+    except Exception as e:
+        raise Violation(f'reading a well-formed array written by Darr {version} raised {type(e).__name__}',
+                        msg=holes.symstr(e))
+    if not snap_same(before, snap(w.lookup('/w/dat/arr')), probe):
+        raise Violation(f'executing what the Darr read code does (open with the default mode, read) CHANGED a file of '
+                        f'the array (description written by Darr version {version})')
+    no_open_handles(w, 'after running the read code')
+    reach('end')
+
+
+def replay_run_readonly(cex, d):
+    import warnings
+    import json as js
+    import hashlib
+    warnings.simplefilter('ignore')
+    darr, np_ = rp.real()
+    fx = dict(d.get('fixed') or {})
+    fx.update(cex)
+    n = min(int(fx['n']), 5)
+    atom = tuple(fx['atom'])
+
+    def tree(p):
+        return {f: hashlib.sha256(open(os.path.join(p, f), 'rb').read()).hexdigest() for f in sorted(os.listdir(p))}
+    with rp.scratch() as tmp:
+        p = tmp + '/arr'
+        ref = rp.values(np_, n, atom, fx['numtype'], fx['bo'], 1)
+        md = {'who': 'me'} if fx.get('withmeta') else None
+        a = darr.asarray(p, ref, metadata=md) if n else darr.create_array(p, shape=(0,) + atom, dtype=ref.dtype, metadata=md)
+        code = a.readcode('darr', abspath=True)
+        del a
+        if fx['version'] != 'same':
+            q = p + '/arraydescription.json'
+            obj = js.load(open(q))
+            obj['darrversion'] = fx['version']
+            js.dump(obj, open(q, 'w'))
+        before = tree(p)
+        try:
+            ns = {}
+            if code is not None:
+                exec(code, ns)
+                ns['a'][:]
+            else:
+                darr.Array(path=p)[:]
+            ns.clear()
+        except Exception as e:
+            return {'reproduced': True, 'detail': f'running the Darr read code raised {e!r}'}
+        after = tree(p)
+        if after != before:
+            ch = sorted(x for x in set(before) | set(after) if before.get(x) != after.get(x))
+            return {'reproduced': True, 'detail': f'running the generated Darr code changed {ch}'}
+    return {'reproduced': False, 'detail': 'running the Darr read code leaves every file byte-identical'}
+
+
 def replay_readcode(cex, d):
     import warnings
     warnings.simplefilter('ignore')
@@ -417,7 +490,15 @@ def obligations(tier):
     ranks = (1, 2, 3, 4) if thorough else (1, 2, 3)
     splits = [dict(numtype=nt, bo=bo, rank=r, relhandle=(i % 2 == 1))
               for i, nt in enumerate(NUMTYPES) for bo in ('little', 'big') for r in ranks]
-    return [Ob('DENOTE', 'h_readcode', splits=splits, timeout=T, replay='replay_readcode', stub_readme=False,
+    rs = [dict(version=v, withmeta=m, numtype=nt, bo=bo, atom=at)
+          for v in ('same', '0.1.0', '0.3.3', '99.0.0')
+          for (m, nt, bo, at) in ((False, 'int32', 'little', ()), (True, 'float64', 'big', (2,)))]
+    return [Ob('RUN-READONLY', 'h_run_readonly', splits=rs, timeout=T, replay='replay_run_readonly',
+               sym='n (rows, 0 included), probe',
+               bounds='the Darr-language program (open with the default access mode, read everything, ask for read code) on '
+                      'an array of n >= 0 rows whose description carries the running, an older (0.1.0, 0.3.3) or a newer '
+                      '(99.0.0) darrversion, with and without metadata: every file of the array is unchanged afterwards'),
+            Ob('DENOTE', 'h_readcode', splits=splits, timeout=T, replay='replay_readcode', stub_readme=False,
                regions=('matlab_complex_nd_quoting', 'python_ignores_path', 'numpymemmap_default_mode'),
                sym='n0..n(r-1) : extents >= 1 (unbounded up to 2^40)',
                bounds=f'13 types x 2 byte orders x rank 1..{ranks[-1]} x 12 languages x 3 path modes, extents symbolic; '
